@@ -16,6 +16,7 @@ import (
 	"fmt"
 	abci "github.com/cometbft/cometbft/abci/types"
 	codectypes "github.com/cosmos/cosmos-sdk/codec/types"
+	banktypes "github.com/cosmos/cosmos-sdk/x/bank/types"
 	"math/rand"
 	"sort"
 	"strings"
@@ -65,24 +66,25 @@ type event struct {
 }
 
 type mon struct {
-	rec          *fw.Recorder
-	r            *rand.Rand
-	w            *world.BridgeWorld
-	c            *chain.Chain
-	p            params
-	ledger       map[uint64]*entry
-	denoms       []string
-	tokenOf      map[string]string // chain|erc20(lower) -> denom
-	supply       map[string]sdkmath.Int
-	evNonce      map[string]uint64
-	events       map[string]*event // chain|nonce -> event
-	seenObs      map[string]bool
-	todo         map[string][]sdk.Msg // validator bech -> FIFO of msgs
-	claimed      map[string]bool      // batch key -> executed event already emitted
-	lateFee      string
-	ethH         uint64
-	stopped      bool
-	lastObserved []string
+	intruderStage int
+	rec           *fw.Recorder
+	r             *rand.Rand
+	w             *world.BridgeWorld
+	c             *chain.Chain
+	p             params
+	ledger        map[uint64]*entry
+	denoms        []string
+	tokenOf       map[string]string // chain|erc20(lower) -> denom
+	supply        map[string]sdkmath.Int
+	evNonce       map[string]uint64
+	events        map[string]*event // chain|nonce -> event
+	seenObs       map[string]bool
+	todo          map[string][]sdk.Msg // validator bech -> FIFO of msgs
+	claimed       map[string]bool      // batch key -> executed event already emitted
+	lateFee       string
+	ethH          uint64
+	stopped       bool
+	lastObserved  []string
 }
 
 func descs(p []pendingTx) []string {
@@ -338,6 +340,24 @@ func (m *mon) block(valsBusy bool) {
 		}
 		pend = append(pend, pt)
 	}
+	// a user with a token of its own tries to register it on an ERC-20 contract that already serves another token of
+	// that chain (pool, batches, refunds, burns and deposits are all keyed by the contract address): one step per block
+	if intr := w.Users[len(w.Users)-1]; m.intruderStage < 4 && c.Height > 20 && m.signerFree(used, intr) {
+		dx := world.FactoryDenom(intr, "tkx")
+		t0 := w.Tokens[0]
+		switch m.intruderStage {
+		case 0:
+			queue(pendingTx{kind: "aux", actor: intr, desc: "create denom tkx"}, world.MsgCreateDenom(intr, "tkx"))
+		case 1:
+			queue(pendingTx{kind: "aux", actor: intr, desc: "mint tkx"}, world.MsgMint(intr, dx, sdkmath.NewInt(1_000_000_000)))
+		case 2:
+			queue(pendingTx{kind: "aux", actor: intr, desc: "share tkx"}, &banktypes.MsgSend{FromAddress: intr.Bech, ToAddress: w.Users[0].Bech, Amount: sdk.NewCoins(sdk.NewCoin(dx, sdkmath.NewInt(400_000_000)))})
+		case 3:
+			queue(pendingTx{kind: "map-second-denom", actor: intr, denom: dx, chain: t0.ChainRef, desc: "register tkx on " + t0.ERC20 + " (" + t0.ChainRef + "), which serves " + t0.Denom}, world.MsgMapERC20(intr, dx, t0.ChainRef, t0.ERC20))
+		}
+		m.intruderStage++
+		used[intr.Bech] = true
+	}
 	// users
 	for _, u := range w.Users {
 		x := r.Intn(100)
@@ -442,6 +462,15 @@ func (m *mon) block(valsBusy bool) {
 		res := br.Txs[base+i]
 		m.rec.Count("tx:"+pt.kind+okStr(res.OK()), 1)
 		switch pt.kind {
+		case "map-second-denom":
+			if res.OK() {
+				// the chain took the registration: from now on transfers of that token are part of the workload and of the ledger
+				m.rec.Count("second_denom_registered_on_served_contract", 1)
+				w.Tokens = append(w.Tokens, world.Token{Denom: pt.denom, ChainRef: pt.chain, ERC20: w.Tokens[0].ERC20})
+				m.denoms = append(m.denoms, pt.denom)
+			} else {
+				m.rec.Count("second_denom_registration_refused", 1)
+			}
 		case "send":
 			spent, recvd := chain.CoinFlow(res.Events, pt.actor.Bech, pt.denom)
 			after := pt.before.Sub(spent).Add(recvd)
